@@ -17,7 +17,7 @@ class Check(PropertyCheck):
     gen_files = ["GenSecurity"]
     model_imports = ["gen.GenSecurity", "model.NetInfo"]
     run_expr = "run_netinfo_case"
-    case_type = "(N * N * bytes * netinfo)"
+    case_type = "(N * N * N * bytes * netinfo)"
     shard = 100
     rule = ("random network and node information (keys, frame counters, 0..N link keys with distinct partners incl. more than the key "
             "table holds, 0..3 children with known or unknown network address, known or unknown trust-centre address, hashed link key "
@@ -38,6 +38,7 @@ class Check(PropertyCheck):
                 nkeys = rng.choice([0, 1, 2, 3, 5]) if i % 7 else 7
                 cases.append({
                     "v": v, "key_size": rng.choice([4, 6, 12]) if nkeys < 7 else 5, "nv3": rng.random() < 0.6,
+                    "prior": rng.random() < 0.6,      # the adapter held another network before (multi-step history)
                     "same_ieee": rng.random() < 0.5, "node_unknown": rng.random() < 0.15,
                     "pan": rng.randrange(0xFFFF), "epan": rnd_bytes(rng, 8).hex(), "channel": rng.randrange(11, 27),
                     "mask": rng.choice([0x07FFF800, 1 << 15, (1 << 11) | (1 << 26)]), "update_id": rng.randrange(256),
@@ -88,6 +89,14 @@ class Check(PropertyCheck):
                 sim.reboot()
                 ez.start_ezsp()
             ez.startup_reset = startup_reset
+            if c.get("prior"):
+                # an earlier network on the same adapter: non-zero counters, keys and children of its own
+                pc = dict(c, pan=0x7A7A, nwk_fc=0x01020304, tclk_fc=0x0A0B0C0D, tclk=WELL_KNOWN.hex(), nwk_key=("5a" * 16),
+                          keys=[[bytes([0xEE, k, 1, 1, 1, 1, 1, 1]).hex(), ("%02x" % k) * 16] for k in range(3)],
+                          children=[[bytes([0xDD, k, 2, 2, 2, 2, 2, 2]).hex(), 0x4000 + k] for k in range(2)])
+                pni, pnode = self._netinfo(pc)
+                await app.write_network_info(network_info=pni, node_info=pnode)
+                del sim.log[:]
             ni, node = self._netinfo(c)
             await app.write_network_info(network_info=ni, node_info=node)
             sec = [a["state"] for n, *rest in [(x[0], x[1]) if len(x) > 1 else (x[0],) for x in sim.log]
@@ -149,7 +158,8 @@ class Check(PropertyCheck):
             c["pan"], bl(c["epan"]), c["channel"], c["mask"], c["update_id"], bl(c["nwk_key"]), c["nwk_seq"], c["nwk_fc"],
             bl(c["tclk"]), c["tclk_fc"], "None" if tc is None else f"(Some {bl(tc)})",
             "None" if c["hashed"] is None else f"(Some {bl(c['hashed'])})", keys, kids)
-        return f"({c['v']}, {c.get('_key_size', c['key_size'])}, {bl(FIXED_RANDOM.hex())}, {ni})"
+        prior_fc = 0x01020304 if c.get("prior") and c["v"] > 4 else 0     # v4 cannot store the counter at all
+        return f"({c['v']}, {c.get('_key_size', c['key_size'])}, {prior_fc}, {bl(FIXED_RANDOM.hex())}, {ni})"
 
     def obs_to_z(self, case, obs):
         if "crash" in obs:
